@@ -121,7 +121,8 @@ fn inv(op: &Op, _ctx: &dyn Context, operands: &mut dyn CoordinateSet) -> usize {
 
             // The authalic latitude is a bit convoluted
             let denom = a * a * (1.0 - ((1.0 - es) / (2.0 * e)) * ((1.0 - e) / (1.0 + e)).ln());
-            let xi = (-sign) * (1.0 - rho * rho / denom);
+            // ... and (1 - rho^2/denom) is its *sine* (IOGP 2019, p. 79)
+            let xi = (-sign) * (1.0 - rho * rho / denom).asin();
 
             let lon = lon_0 + (x - x_0).atan2(sign * (y - y_0));
             let lat = ellps.latitude_authalic_to_geographic(xi, &authalic);
@@ -201,7 +202,7 @@ pub fn new(parameters: &RawParameters, _ctx: &dyn Context) -> Result<Op, Error> 
     }
 
     let polar = (t - FRAC_PI_2).abs() < EPS10;
-    let north = polar && (t > 0.0);
+    let north = polar && (lat_0 > 0.0);
     let equatorial = !polar && t < EPS10;
     // The equatorial aspect is computed as the special case lat_0 = 0 of the oblique aspect
     let oblique = !polar;
